@@ -4,6 +4,7 @@ UNITS = {
     "authz": dict(engine="verus", serves=["C02", "C11"]),
     "handler": dict(engine="verus", serves=["C01", "C05", "C11", "C14", "C15"]),
     "disk": dict(engine="verus", serves=["C19"]),
+    "provision": dict(engine="verus", serves=["C16"]),
     "authorizer": dict(engine="verus", serves=["C03", "C11", "C01"]),
 }
 
@@ -82,6 +83,15 @@ PROPERTIES["C11"] = dict(
     level_text="Deductive proof (Verus/Z3).",
     level_note="see evidence trusted_base",
     design_ref="DESIGN.md section 3 C11",
+    assumptions=[],
+)
+
+PROPERTIES["C16"] = dict(
+    units=["provision"],
+    technique="Verus contracts on the extracted real functions; rely/guarantee over a ghost per-task record threaded through the actor-wrapper stubs; actor arms as E5 slices; transition-system lemmas for all schedules; capability preconditions",
+    level_text="Deductive proof (Verus/Z3) for every await-point interleaving: each arm of the provision actor (verbatim slices) performs st|s / st&!s / tick:=now|0 and replies the new value; update/reset/timeup set 'finished' only with evidence (a reply showing all three ready, or being the deadline handler), proved against a havocked actor state; that evidence keeps the stored tick truthful under every schedule (induction); the error text is proved equal to one section per not-ready subsystem, empty iff all ready; the /provision handler (whole function, real hyper types) answers that text and finished only if (tick!=0 && tick>=query instant) or latched; status.tag is produced only by rename of a fully written status.tag.tmp.",
+    level_note="Trusted: Verus/Z3/rustc; wrapper-method contracts (dispatch loop and tokio channels not verified); bitflags semantics (validated exhaustively by contracts/provision/validate_bitflags.sh); http/hyper/serde_json/std::fs specs; POSIX rename atomic; clock>0; syntactic caller census. Not covered: OS-thread-parallel writers sharing status.tag.tmp, fsync/durability, provisioned.tag, wall-clock monotonicity.",
+    design_ref="DESIGN.md section 3 C16",
     assumptions=[],
 )
 
